@@ -75,6 +75,8 @@ pub struct Ctx {
     pub known: Arc<Vec<String>>,
     /// replaying a known-finding repro: the signature that entry expects
     pub expect: Option<String>,
+    /// index of the case within its stage (stages with `fresh_blocks` derive per-process parameters from it)
+    pub index: u64,
 }
 
 impl Ctx {
@@ -90,6 +92,7 @@ impl Ctx {
             sub_evals: 0,
             known: current_known(),
             expect: EXPECT_SIG.get().cloned(),
+            index: 0,
         }
     }
     /// From several independent failures of one case pick the first whose signature is not a
@@ -151,6 +154,11 @@ pub enum StageKind {
 pub struct Stage {
     pub name: &'static str,
     pub kind: StageKind,
+    /// `Some(b)`: the stage is cut into blocks of exactly `b` consecutive cases (whatever the number of
+    /// workers) and every block runs in a fresh worker process, so a check may do something once per
+    /// process (derived from `ctx.index / b`) before its cases: "what did this process do first" then is
+    /// part of the case and replays from the saved index.
+    pub block: Option<u64>,
 }
 
 /// A custom stage run in the parent process (multi-process / schedule / Miri checks).
@@ -235,6 +243,7 @@ impl Prop {
                 cases,
                 max_len,
             },
+            block: None,
         });
         self
     }
@@ -242,7 +251,15 @@ impl Prop {
         self.stages.push(Stage {
             name,
             kind: StageKind::Enumerated { check, total },
+            block: None,
         });
+        self
+    }
+    /// The stage added last runs in fresh worker processes of exactly `b` cases each (see `Stage::block`).
+    pub fn fresh_blocks(mut self, b: u64) -> Prop {
+        if let Some(st) = self.stages.last_mut() {
+            st.block = Some(b.max(1));
+        }
         self
     }
     pub fn custom(mut self, f: CustomFn) -> Prop {
@@ -547,6 +564,7 @@ fn shrink_case(
     let mut tree = byte_strategy(max_len).new_tree(&mut runner).unwrap();
     let fails = |bytes: &[u8]| -> bool {
         let mut ctx = Ctx::new(tier, false);
+        ctx.index = index;
         matches!(guarded(prop, || check(bytes, &mut ctx)), Outcome::Fail { sig, .. } if sig == want_sig)
     };
     let mut best = tree.current();
@@ -699,6 +717,7 @@ pub fn worker_main(a: WorkerArgs) -> i32 {
                     let _ = f.write_all(format!("{:020}", index).as_bytes());
                 }
                 let mut ctx = Ctx::new(tier, false);
+                ctx.index = index;
                 let (outcome, bytes) = match &stage.kind {
                     StageKind::Random { check, max_len, .. } => {
                         let bytes = gen_case(seed, prop.id, stage_idx, index, max_len(tier));
@@ -768,6 +787,7 @@ pub fn worker_main(a: WorkerArgs) -> i32 {
                         if let (StageKind::Random { check, max_len, .. }, false) = (&stage.kind, no_shrink) {
                             let small = shrink_case(seed, prop.id, stage_idx, index, max_len(tier), *check, tier, &sig);
                             let mut c2 = Ctx::new(tier, false);
+                            c2.index = index;
                             if let Outcome::Fail { sig: s2, detail: d2 } = guarded(prop.id, || check(&small, &mut c2)) {
                                 if s2 == sig {
                                     fail.bytes = Some(small);
@@ -1068,7 +1088,7 @@ pub fn run_property(prop: &'static Prop, tier: Tier, seed: u64, exe: &str) -> Ru
         };
         if total == 0 { continue; }
         let nchunks = ((jobs * 3) as u64).min(total).max(1);
-        let per = total.div_ceil(nchunks);
+        let per = st.block.unwrap_or_else(|| total.div_ceil(nchunks));
         let mut s = 0;
         while s < total {
             let e = (s + per).min(total);
@@ -1340,6 +1360,7 @@ pub fn replay_raw(prop: &'static Prop, tier: Tier, path: &str) -> (i32, Value) {
         .stack_size(prop.stack_kib * 1024)
         .spawn(move || {
             let mut ctx = Ctx::new(tier, true);
+            ctx.index = index;
             let o = match (&stage.kind, bytes) {
                 (StageKind::Random { check, .. }, Some(b)) => guarded(pid, || check(&b, &mut ctx)),
                 (StageKind::Enumerated { check, .. }, _) => guarded(pid, || check(index, &mut ctx)),
